@@ -131,6 +131,11 @@ def b_rules(p: Project, rep: Report):
             names = {x.id for x in ast.walk(s.value) if isinstance(x, ast.Name)}
             ok = nm in names and not (names & (set(pnames) - {nm}))
             rep.check("B-R2", f"{clsname}.__init__:{nm}:from-own-parameter", ok, f"self.{nm} is computed from {sorted(names & set(pnames))}" if not ok else "", hloc(p, s))
+            # ... and is validated as given: a text normalised first (case-folded, stripped, padded) makes tokens
+            # outside the domain pass as the valid token they resemble
+            norm_calls = [c_ for c_ in ast.walk(s.value) if isinstance(c_, ast.Call) and isinstance(c_.func, ast.Attribute) and c_.func.attr in ("upper", "lower", "casefold", "title", "capitalize", "swapcase", "strip", "lstrip", "rstrip", "replace", "zfill", "translate", "removeprefix", "removesuffix") and any(isinstance(x, ast.Name) and x.id == nm for x in ast.walk(c_.func.value))]
+            if ok:
+                rep.check("B-R2", f"{clsname}.__init__:{nm}:validated-as-given", not norm_calls, f"self.{nm} = {text(s.value)[:60]}: the field is normalised with .{norm_calls[0].func.attr}() BEFORE it is validated, so a token outside the domain that differs from a valid one only by that normalisation (e.g. 'none', 'Type1') is accepted and yields a header object" if norm_calls else "", hloc(p, s))
         for prm in pnames_to_check:
             rep.check("B-R2", f"{clsname}.__init__:{prm}:stored", prm in stored, f"parameter {prm} is never stored" if prm not in stored else "", hloc(p, ifn))
         # handlers must not swallow
